@@ -391,15 +391,17 @@ func (m *c35model) expectWU(id, incr uint32) c35exp {
 func (m *c35model) expectSettings(sub string) c35exp {
 	P, FC := ErrCodeProtocol, ErrCodeFlowControl
 	switch sub {
-	case "empty", "mcs0", "iws0":
+	case "empty", "mcs0":
 		return c35quiet("valid-settings:" + sub)
+	case "iws0":
+		return c35quiet("valid-settings-iws")
 	case "iwsmax":
 		for _, s := range m.streams {
 			if s.st.active() && s.win+(c35maxWin-m.iws) > c35maxWin {
 				return c35connErr("settings-window-overflow", FC)
 			}
 		}
-		return c35quiet("valid-settings:iwsmax")
+		return c35quiet("valid-settings-iws")
 	case "iwsbad":
 		return c35connErr("settings-iws-too-large", FC)
 	case "pushbad":
@@ -521,11 +523,13 @@ func c35alphabet(fam string, e *h2env, m *c35model) []c35ev {
 	case "limit1", "limit2":
 		add(c35H(next, "ok", true), c35H(next, "ok", false), c35R(1), c35R(3), c35D(1, true), c35D(3, true), c35S("mcs0"))
 	case "flow":
-		add(c35H(1, "ok", false), c35H(3, "ok", true),
-			c35W(0, 0, "0"), c35W(1, 0, "0"), c35W(0, c35maxWin, "max"), c35W(1, c35maxWin, "max"),
-			c35W(0, c35fit, "fit"), c35W(1, c35fit, "fit"), c35W(0, 1, "1"), c35W(1, 1, "1"), c35W(3, 1, "1"), c35W(5, 1, "1"),
+		add(c35H(1, "ok", false),
+			c35W(0, c35maxWin, "max"), c35W(1, c35maxWin, "max"), c35W(0, c35fit, "fit"), c35W(1, c35fit, "fit"), c35W(0, 1, "1"), c35W(1, 1, "1"),
 			c35S("iwsmax"), c35S("iws0"))
 		hops = []string{"RET", "WF"}
+	case "wu0":
+		add(c35H(1, "ok", false), c35H(3, "ok", true), c35R(1),
+			c35W(0, 0, "0"), c35W(1, 0, "0"), c35W(3, 0, "0"), c35W(1, 1, "1"), c35W(3, 1, "1"), c35W(5, 1, "1"), c35W(3, c35maxWin, "max"))
 	case "ctrl":
 		add(c35H(1, "ok", false), c35H(3, "ok", true),
 			c35S("empty"), c35S("mcs0"), c35S("iwsbad"), c35S("pushbad"), c35S("onstream"), c35S("ackextra"), c35S("acklen"),
@@ -547,7 +551,10 @@ func c35alphabet(fam string, e *h2env, m *c35model) []c35ev {
 	}
 	e.mu.Unlock()
 	for i, h := range hs {
-		if h == nil || h.done || h.busy || h.cmdsClosed {
+		// In the stall family the completion of a handler command can depend on the order in which
+		// the serve loop's select picks simultaneously ready channels (not controllable), so the
+		// alphabet must not depend on it: commands to a busy/finished handler are no-ops there.
+		if h == nil || (fam != "stall" && (h.done || h.busy || h.cmdsClosed)) {
 			continue
 		}
 		for _, op := range hops {
@@ -622,6 +629,9 @@ func c35send(e *h2env, m *c35model, ev c35ev) (exp c35exp, target uint32, early 
 			e.fr.WriteHeaders(HeadersFrameParam{StreamID: ev.id, BlockFragment: block, EndStream: ev.es, EndHeaders: true})
 		} else {
 			cut := len(block) / 2
+			if cut == 0 {
+				cut = 1 // bfe answers a HEADERS frame with an empty fragment with a stream error (not judged here)
+			}
 			e.fr.WriteHeaders(HeadersFrameParam{StreamID: ev.id, BlockFragment: block[:cut], EndStream: ev.es, EndHeaders: false})
 			if !inBlock {
 				m.blk = &c35blk{id: ev.id, variant: ev.variant, es: ev.es, rest: block[cut:]}
@@ -714,7 +724,7 @@ func c35send(e *h2env, m *c35model, ev c35ev) (exp c35exp, target uint32, early 
 	}
 	if inBlock {
 		// §6.10: anything but CONTINUATION on the same stream inside a header block
-		exp = c35connErr("frame-inside-header-block", ErrCodeProtocol)
+		exp = c35anyErr("frame-inside-header-block", ErrCodeProtocol)
 		early = false
 	}
 	e.flushFrame()
@@ -897,6 +907,14 @@ func c35step(r *vk.Run, id string, hist []string, e *h2env, m *c35model, ev c35e
 		c35checkPanic(r, id, "stall", hist, e, m)
 		return
 	case "RET", "READ", "WF":
+		if ev.h.busy {
+			ev.h.poll()
+		}
+		if ev.h.done || ev.h.busy || ev.h.cmdsClosed {
+			c35book(e, m, e.recv())
+			c35checkPanic(r, id, "handler-noop", hist, e, m)
+			return
+		}
 		switch ev.kind {
 		case "RET":
 			ev.h.do(h2cmd{op: "return"})
@@ -920,7 +938,11 @@ func c35step(r *vk.Run, id string, hist []string, e *h2env, m *c35model, ev c35e
 		}
 		return
 	}
+	drift := m.connWin != int64(e.sc.flow.n) // server's own connection send window differs from what the client granted
 	exp, target, early := c35send(e, m, ev)
+	if drift && exp.why == "window-overflow-conn" {
+		exp.why = "window-overflow-conn(server-window-drifted)"
+	}
 	frames := e.recv()
 	canStart := ev.kind == "H" || ev.kind == "C"
 	obs := c35observe(e, frames, target, startedBefore, canStart)
@@ -941,7 +963,7 @@ func c35step(r *vk.Run, id string, hist []string, e *h2env, m *c35model, ev c35e
 			r.Outcome(exp.why + "=>" + obs.String())
 			if !exp.admits(obs) {
 				m.unjudged = true
-				r.Violation("outcome:"+exp.why+"=>"+obs.String(), id, fmt.Sprintf("event %s: rule %q admits %s but the client observed %s; history %v; server frames after the event: %s", ev.name, exp.why, exp, obs, hist, h2trace(frames)))
+				r.Violation("outcome:"+exp.why+"=>"+obs.String(), id, fmt.Sprintf("event %s: rule %q admits %s but the client observed %s; history %v; server frames after the event: %s; model conn send window %d, server's own %d", ev.name, exp.why, exp, obs, hist, h2trace(frames), m.connWin, e.sc.flow.n))
 			}
 		}
 	}
@@ -1044,7 +1066,6 @@ func c35exec(t *testing.T, r *vk.Run, fam string, depth int, replayLen int, ch *
 			c35step(r, id, hist, e, m, ev)
 			r.Transitions(1)
 		}
-		c35finish(r, id, hist, e, m)
 		end := "alive"
 		switch {
 		case m.panicked:
@@ -1053,6 +1074,10 @@ func c35exec(t *testing.T, r *vk.Run, fam string, depth int, replayLen int, ch *
 			end = "goaway"
 		case m.closed:
 			end = "closed"
+		}
+		c35finish(r, id, hist, e, m)
+		if m.panicked {
+			end = "panic"
 		}
 		r.Outcome(fam + ":end=" + end)
 		r.Case(ch.CaseID(fam))
@@ -1072,14 +1097,15 @@ func TestVerifC35(t *testing.T) {
 	}
 	fams := []fam{
 		{"ids", r.Pick(4, 6)},
-		{"body", r.Pick(4, 6)},
+		{"body", r.Pick(4, 5)},
 		{"malformed", r.Pick(3, 4)},
-		{"cont", r.Pick(4, 6)},
 		{"limit1", r.Pick(5, 7)},
-		{"limit2", r.Pick(5, 7)},
+		{"limit2", r.Pick(4, 6)},
+		{"cont", r.Pick(4, 5)},
 		{"flow", r.Pick(4, 5)},
+		{"wu0", r.Pick(4, 5)},
 		{"ctrl", r.Pick(3, 4)},
-		{"stall", r.Pick(5, 7)},
+		{"stall", r.Pick(4, 6)},
 	}
 	for _, f := range fams {
 		replayLen := -1
